@@ -17,7 +17,8 @@ RULE = (
     "(moderate_, large_resolution_threshold), (penalty_increase_threshold, _factor), (maxfev, nb_points)) on the "
     "product of their lattices - both exhaustive; generated (Hypothesis): random subsets of the 13 options and 20 "
     "constants with lattice values, plus unknown names. Each case calls minimize on a 2-variable problem (maxfev "
-    "<= 8) and the completion routines. Non-trivial = at least two settings supplied of which one at or next "
+    "<= 8; unbounded, or with one / both variables fixed by the bounds, or with inconsistent bounds - the last "
+    "two are settled without iterating) and the completion routines. Non-trivial = at least two settings supplied of which one at or next "
     "to a boundary of its domain; distinct = distinct spec hash"
 )
 ASSUMPTIONS = [
@@ -114,13 +115,23 @@ def budget(tier):
     return 1600 if tier == "quick" else 60000
 
 
+PROBLEMS = ["regular", "partfixed", "allfixed", "badbounds"]
+
+
 def enumerate_cases(tier):
     for s in OPTIONS + CONSTANTS:
         for v in s["lattice"]:
             yield enc({"settings": {s["name"]: v}})
+            if s["name"] != "nb_points":
+                # the restrictions are enforced whatever the problem: also when minimize settles it without
+                # iterating (every variable fixed by the bounds; inconsistent bounds)
+                for pb in PROBLEMS[1:]:
+                    yield enc({"settings": {s["name"]: v}, "problem": pb})
     for a, b in PAIRS:
         for va, vb in itertools.product(TABLE[a]["lattice"], TABLE[b]["lattice"]):
             yield enc({"settings": {a: va, b: vb}})
+            if "nb_points" not in (a, b):
+                yield enc({"settings": {a: va, b: vb}, "problem": "allfixed"})
 
 
 @st.composite
@@ -138,7 +149,10 @@ def strategy_gen(draw):
         unknown["opt"] = draw(st.sampled_from(["maxeval", "rhobeg", "verbose", "tol"]))
     if draw(st.integers(0, 4)) == 0:
         unknown["const"] = draw(st.sampled_from(["eta1", "gamma", "foo_bar"]))
-    return enc({"settings": settings, "unknown": unknown})
+    problem = "regular"
+    if "nb_points" not in settings and draw(st.integers(0, 2)) == 0:
+        problem = draw(st.sampled_from(PROBLEMS[1:]))
+    return enc({"settings": settings, "unknown": unknown, "problem": problem})
 
 
 def strategy(tier):
@@ -149,7 +163,19 @@ def fun(x):
     return (x[0] - 1.0) ** 2 + 2.0 * (x[1] + 0.5) ** 2 + x[0] * x[1]
 
 
-def call(settings, unknown=None):
+def problem_bounds(problem):
+    from scipy.optimize import Bounds
+
+    if problem == "partfixed":
+        return Bounds([0.25, -INF], [0.25, INF])
+    if problem == "allfixed":
+        return Bounds([0.25, 0.5], [0.25, 0.5])
+    if problem == "badbounds":
+        return Bounds([1.0, 1.0], [0.0, 0.0])
+    return None
+
+
+def call(settings, unknown=None, problem="regular"):
     from cobyqa import minimize
 
     opts = {k: v for k, v in settings.items() if k in OPT_NAMES}
@@ -164,7 +190,7 @@ def call(settings, unknown=None):
         warnings.simplefilter("always")
         try:
             with np.errstate(all="ignore"):
-                r = minimize(fun, [0.25, 0.5], options=opts, **consts)
+                r = minimize(fun, [0.25, 0.5], bounds=problem_bounds(problem), options=opts, **consts)
             exc = None
         except BaseException as e:  # noqa
             if isinstance(e, (KeyboardInterrupt, SystemExit)):
@@ -187,7 +213,11 @@ def run_case(spec):
     out.nontrivial = len(settings) >= 2 and boundary
     out.label("valid" if valid else "invalid", "n_settings=%d" % min(len(settings), 4))
     out.sample = {"settings": enc(settings), "expected": "valid" if valid else "ValueError"}
-    r, exc, wl = call(settings, unknown)
+    problem = spec.get("problem", "regular")
+    if "nb_points" in settings:
+        problem = "regular"  # nb_points is validated against the number of non-fixed variables (O2)
+    out.label("problem:" + problem)
+    r, exc, wl = call(settings, unknown, problem)
     if not valid:
         if exc is None:
             bad = [k for k, v in settings.items() if not TABLE[k]["ok"](v)]
@@ -211,7 +241,7 @@ def run_case(spec):
         out.fail("C19.unknown.warn", "%d unknown name(s) produced %d 'Unknown' RuntimeWarning(s): %r"
                  % (want_w, len(got_w), wl[:3]))
     if unknown:
-        r0, exc0, _ = call(settings, None)
+        r0, exc0, _ = call(settings, None, problem)
         if exc0 is not None or not (r0.status == r.status and r0.nfev == r.nfev and np.array_equal(r0.x, r.x)
                                     and r0.fun == r.fun):
             out.fail("C19.unknown.run", "unknown names %r altered the run" % (unknown,))
